@@ -262,10 +262,16 @@ enum HEv {
     /// a health-check connection the peer aborts (RST via SO_LINGER 0) right after the handshake,
     /// as load-balancer probes do: the worker meets a connection that is already dead
     ConnectAbort,
+    /// a UDP datagram that is not a request (zero-length / a short probe)
+    Junk,
 }
 
 fn health_history(h: &[HEv]) -> Result<Option<(String, String)>, String> {
-    let mut srv = Srv::new(&SrvCfg { health: true, ..Default::default() })?;
+    health_history_bs(h, 64)
+}
+
+fn health_history_bs(h: &[HEv], batch_size: u8) -> Result<Option<(String, String)>, String> {
+    let mut srv = Srv::new(&SrvCfg { health: true, batch_size, ..Default::default() })?;
     let haddr = srv.health_addr.unwrap();
     let lt_pk = crypto::public_key(&srv.cfg.seed);
     let mut conns: Vec<TcpStream> = vec![];
@@ -287,6 +293,10 @@ fn health_history(h: &[HEv]) -> Result<Option<(String, String)>, String> {
                 }
                 Err(e) => return Ok(Some(("health-connect-refused".into(), format!("event {}: {}", k, e)))),
             },
+            HEv::Junk => {
+                let c = Client::new();
+                c.send(srv.addr, if k % 2 == 0 { &[][..] } else { &b"probe"[..] });
+            }
             HEv::Send => {
                 let c = Client::new();
                 let req = rtref::responder::std_request(rtref::Version::Classic, &nonce(0x1500 + k as u64, 64));
@@ -439,15 +449,15 @@ pub fn run(ctx: &Ctx) -> Result<(), String> {
     let hist_n = AtomicU64::new(0);
     let transitions = AtomicU64::new(0);
     {
-        let al = [HEv::Connect, HEv::Send, HEv::Step, HEv::ConnectAbort];
+        let al = [HEv::Connect, HEv::Send, HEv::Step, HEv::ConnectAbort, HEv::Junk];
         let maxlen = ctx.tier.pick(5usize, 6);
         let mut hs = vec![];
         for l in 1..=maxlen {
-            for mut idx in 0..4usize.pow(l as u32) {
+            for mut idx in 0..5usize.pow(l as u32) {
                 let mut h = vec![];
                 for _ in 0..l {
-                    h.push(al[idx % 4]);
-                    idx /= 4;
+                    h.push(al[idx % 5]);
+                    idx /= 5;
                 }
                 hs.push(h);
             }
@@ -455,7 +465,10 @@ pub fn run(ctx: &Ctx) -> Result<(), String> {
         par_for(hs.len(), 4, |k, _| {
             hist_n.fetch_add(1, Relaxed);
             transitions.fetch_add(hs[k].len() as u64 + 3, Relaxed);
-            match health_history(&hs[k]) {
+            // histories with datagrams that are not requests run with batch_size 1 (one stray fills
+            // a whole batch); the others with the default
+            let bs = if hs[k].iter().any(|e| *e == HEv::Junk) { 1 } else { 64 };
+            match health_history_bs(&hs[k], bs) {
                 Err(e) => *failed.lock().unwrap() = Some(e),
                 Ok(None) => {}
                 Ok(Some((clause, msg))) => {
@@ -524,7 +537,7 @@ pub fn run(ctx: &Ctx) -> Result<(), String> {
     ctx.cov("exhaustive", json!(sched.caps_hit.is_empty()));
     ctx.cov("caps_hit", json!(sched.caps_hit));
     ctx.cov("bound", json!({"configuration_space": ctx.tier.pick("all-pairs covering array of the 4608-point product", "full 4608-point product"), "health_history_len": ctx.tier.pick(5, 6)}));
-    ctx.cov("rule", json!("(1) real server binary started on every point of the documented option space (num_workers 1..=16 x health_check_port absent/present x batch_size {1,2,63,64} x fault_percentage {0,1,50} x status_interval {1,10,600} x client_stats off/on+directory x file/ENV; quick: greedy all-pairs covering array; thorough: full product) and on the repository's example.cfg: process alive, thread names worker-0..N-1 (+stats-reporting iff client_stats), N distinct delegated keys answer authentic replies on the UDP port — before and, for batch_size <= 2, after bursts of 16*batch_size+8 requests from each of 4 sockets (each socket's traffic lands on one worker) —, the health port answers the fixed HTTP 200 bytes, no panic text; (2) start-up schedules under the controlled scheduler (see startup_schedules); (3) all sequences of length <= L over {connect_tcp, send(valid request), step, connect_tcp-then-abort(RST)} on a real in-process Server with the health port on, driven to quiescence: every accepted TCP connection received exactly the fixed response and was closed, every UDP request answered; plus bursts of k connections (quick k in {2,..,100}, thorough every k 2..=130) pending before one step, alone, mixed with requests, and twice."));
+    ctx.cov("rule", json!("(1) real server binary started on every point of the documented option space (num_workers 1..=16 x health_check_port absent/present x batch_size {1,2,63,64} x fault_percentage {0,1,50} x status_interval {1,10,600} x client_stats off/on+directory x file/ENV; quick: greedy all-pairs covering array; thorough: full product) and on the repository's example.cfg: process alive, thread names worker-0..N-1 (+stats-reporting iff client_stats), N distinct delegated keys answer authentic replies on the UDP port — before and, for batch_size <= 2, after bursts of 16*batch_size+8 requests from each of 4 sockets (each socket's traffic lands on one worker) —, the health port answers the fixed HTTP 200 bytes, no panic text; (2) start-up schedules under the controlled scheduler (see startup_schedules); (3) all sequences of length <= L over {connect_tcp, send(valid request), step, connect_tcp-then-abort(RST), send(datagram that is not a request)} on a real in-process Server with the health port on, driven to quiescence: every accepted TCP connection received exactly the fixed response and was closed, every UDP request answered; plus bursts of k connections (quick k in {2,..,100}, thorough every k 2..=130) pending before one step, alone, mixed with requests, and twice."));
     ctx.sample(json!({"kind":"start","point":{"num_workers":16,"health_check_port":true,"batch_size":63,"fault_percentage":1,"status_interval":10,"client_stats":true,"source":"ENV"}}));
     ctx.sample(json!({"kind":"health-history","events":["Connect","Connect","Send","Step"]}));
     ctx.assume("SO_REUSEPORT spreads 48*N+32 client sockets over all N workers (probability of missing a live worker < 1e-15)");
@@ -536,8 +549,9 @@ pub fn replay_case(c: &Value) -> Result<Option<String>, String> {
         Some("schedule") => crate::sched::replay_schedule(c),
         Some("health-history") => {
             crate::inproc::init();
-            let h: Vec<HEv> = c["events"].as_array().ok_or("events")?.iter().map(|e| match e.as_str() { Some("Connect") => HEv::Connect, Some("Send") => HEv::Send, Some("ConnectAbort") => HEv::ConnectAbort, _ => HEv::Step }).collect();
-            let r = crate::util::on_named_thread("worker-0", || health_history(&h))?;
+            let h: Vec<HEv> = c["events"].as_array().ok_or("events")?.iter().map(|e| match e.as_str() { Some("Connect") => HEv::Connect, Some("Send") => HEv::Send, Some("ConnectAbort") => HEv::ConnectAbort, Some("Junk") => HEv::Junk, _ => HEv::Step }).collect();
+            let bs = if h.iter().any(|e| *e == HEv::Junk) { 1 } else { 64 };
+            let r = crate::util::on_named_thread("worker-0", move || health_history_bs(&h, bs))?;
             Ok(r.map(|(a, b)| format!("{} {}", a, b)))
         }
         Some("start") if c["point"].is_object() => {
